@@ -57,11 +57,7 @@ func (k *KnownFindings) Match(prop string, v Violation) *KnownFinding {
 		if f.Status != "open" || f.Property != prop {
 			continue
 		}
-		if strings.HasSuffix(f.Class, "*") {
-			if !strings.HasPrefix(v.Class, strings.TrimSuffix(f.Class, "*")) {
-				continue
-			}
-		} else if f.Class != v.Class {
+		if !globMatch(f.Class, v.Class) {
 			continue
 		}
 		if f.Contains != "" && !strings.Contains(v.Msg, f.Contains) {
@@ -87,4 +83,24 @@ func (k *KnownFindings) Without(prop string, v Violation) *KnownFindings {
 		out.Findings = append(out.Findings, f)
 	}
 	return out
+}
+
+// globMatch matches s against a pattern in which '*' stands for any (possibly empty) substring.
+func globMatch(pat, s string) bool {
+	parts := strings.Split(pat, "*")
+	if len(parts) == 1 {
+		return pat == s
+	}
+	if !strings.HasPrefix(s, parts[0]) {
+		return false
+	}
+	s = s[len(parts[0]):]
+	for i := 1; i < len(parts)-1; i++ {
+		j := strings.Index(s, parts[i])
+		if j < 0 {
+			return false
+		}
+		s = s[j+len(parts[i]):]
+	}
+	return strings.HasSuffix(s, parts[len(parts)-1])
 }
